@@ -313,6 +313,10 @@ def _run(D):
         by_obj.setdefault(c.obj, []).append(c)
     five = False
     markers = {'sat': [], 'vio': []}
+    shared = {}
+    for calls in by_obj.values():
+        f = calls[0].ref.features
+        shared[id(f)] = shared.get(id(f), 0) + 1
     for obj, calls in by_obj.items():
         got = [c.outcome for c in calls]
         nf = 0
@@ -357,7 +361,12 @@ def _run(D):
             ctx.violation('final_costs', site, 'design id %d: costs %r do not belong to the last attempted vector %r'
                           % (ind.id, list(ind.costs), list(fin.vector)))
         elif w.ncons and ind.state == ind.State.EVALUATED and len(ind.costs_signed) == w.m + 1:
-            _marker(ctx, w, markers, ind, fin, site, 'design id %d' % ind.id, nf > 0)
+            if shared.get(id(ind.features), 0) > 1:
+                # PSOGA lets GA offspring share one features dict (observation O4 / finding F5): whose feasibility the
+                # shared record holds is a C07 matter, not one of the retry logic
+                ctx.probe('aliased_features_marker_skipped')
+            else:
+                _marker(ctx, w, markers, ind, fin, site, 'design id %d' % ind.id, nf > 0)
     failed_vecs = [tuple(float(v) for v in f.vector) for f in w.problem.failed]
     order = [tuple(float(v) for v in c.vector) for c in w.calls if c.outcome in T]
     if workers == 1:
